@@ -1,7 +1,8 @@
 (* C10 — All input back-ends behave identically.  (theorems: Proofs/InputRefine.v) *)
 From Coq Require Import List NArith Bool.
 Import ListNotations.
-Require Import Parser SBase SFetch Pipe SBuf InputRefine ScanWP ScanSafeTop ScanRelTop ScanRelAll ScanFuelBufAll.
+Require Import Parser SBase SPrim SFetch Pipe SBuf InputRefine ScanWP ScanSafeTop ScanRelTop ScanRelAll ScanFuelBufAll.
+Require Import TagSpec StrBytes StrBytesProofs StrBytesSim.
 Open Scope nat_scope.
 
 (* Per-operation refinement between the buffered input of any capacity and the string input: related states
@@ -84,3 +85,240 @@ Example C10_equal_example :
             32;32;32;32;32;32;32;32;32;32;120;10;32;32;32;32;32;32;32;32;32;32;121;10]%N in
   run_buf 8 x = run_str x /\ snd (run_buf 8 x) = PDone.
 Proof. vm_compute. split; reflexivity. Qed.
+
+(* ------------------------------------------------------------------------------------------------------------------
+   BYTE LEVEL.  `StrInput` (parser/src/input/str.rs) overrides most provided methods of `Input` with fast paths on the
+   bytes of the `&str`.  Model/StrBytes.v transliterates every method of `impl Input for StrInput` at byte level
+   (state: the remaining bytes + the lookahead counter; Rust panics are explicit outcomes); the theorems below say that
+   on the UTF-8 encoding of ANY text of Unicode scalar values each of them never panics and returns exactly what the
+   character-level instance [str_ops] / the generic provided-method definition of Model/SPrim.v returns: the same
+   boolean / character / COUNT of characters, and the remaining bytes are the encoding of the remaining characters.
+     RB s b := sb_bytes b = bytes_of (si_chars s) /\ scalars (si_chars s) /\ look_rel (si_look s) (sb_look b)
+     q_refines pre g f := forall s b, RB (sc_in s) b -> pre s -> exists a, g s = Ok (a, s) /\ f b = Ok a
+     m_refines pre g f := forall s b, RB (sc_in s) b -> pre s ->
+                          exists a i' b', g s = Ok (a, set_in i' s) /\ f b = Ok (a, b') /\ RB i' b'
+   ------------------------------------------------------------------------------------------------------------------ *)
+Open Scope N_scope.
+
+(* the required methods (= the primitives of InputOps) of the byte-level instance against the character-level one *)
+Theorem C10_bytes_primitives : forall s b, RB s b ->
+  (forall n, exists s' b', lookahead str_ops n s = Ok s' /\ lookahead bytes_ops n b = Ok b' /\ RB s' b')
+  /\ look_rel (buflen str_ops s) (buflen bytes_ops b)
+  /\ ((1 <= buflen bytes_ops b)%nat -> buflen bytes_ops b = buflen str_ops s)
+  /\ bufmaxlen bytes_ops = bufmaxlen str_ops
+  /\ (forall n, peek_nth bytes_ops n b = peek_nth str_ops n s)
+  /\ RB (skip1 str_ops s) (skip1 bytes_ops b)
+  /\ (forall n, exists s' b', skip_n str_ops n s = Ok s' /\ skip_n bytes_ops n b = Ok b' /\ RB s' b')
+  /\ (exists o s' b', raw_read_non_breakz str_ops s = Ok (o, s') /\ raw_read_non_breakz bytes_ops b = Ok (o, b') /\ RB s' b').
+Proof. exact bytes_ops_refines_str_ops. Qed.
+Print Assumptions C10_bytes_primitives.
+
+(* the most delicate overrides, one by one *)
+Theorem C10_bytes_next_can_be_plain_scalar : forall fl,
+  q_refines nonempty_in (next_can_be_plain_scalar str_ops fl) (sb_next_can_be_plain_scalar fl).
+Proof. exact sb_next_can_be_plain_scalar_refines. Qed.
+Print Assumptions C10_bytes_next_can_be_plain_scalar.
+
+Theorem C10_bytes_next_is_document_indicator :
+  q_refines (looked 4) (next_is_document_indicator str_ops) sb_next_is_document_indicator.
+Proof. exact sb_next_is_document_indicator_refines. Qed.
+Print Assumptions C10_bytes_next_is_document_indicator.
+
+Theorem C10_bytes_next_is_document_start :
+  q_refines (looked 4) (next_is_document_start str_ops) sb_next_is_document_start.
+Proof. exact sb_next_is_document_start_refines. Qed.
+Print Assumptions C10_bytes_next_is_document_start.
+
+Theorem C10_bytes_next_is_document_end :
+  q_refines (looked 4) (next_is_document_end str_ops) sb_next_is_document_end.
+Proof. exact sb_next_is_document_end_refines. Qed.
+Print Assumptions C10_bytes_next_is_document_end.
+
+Theorem C10_bytes_skip_ws_to_eol : forall fuel st,
+  m_refines (fun s => (length (si_chars (sc_in s)) < fuel)%nat)
+            (in_skip_ws_to_eol str_ops fuel st false false 0) (sb_skip_ws_to_eol st).
+Proof. exact sb_skip_ws_to_eol_refines. Qed.
+Print Assumptions C10_bytes_skip_ws_to_eol.
+
+Theorem C10_bytes_skip_while_non_breakz : forall fuel,
+  m_refines (fun s => (length (si_chars (sc_in s)) < fuel)%nat) (in_skip_while_non_breakz str_ops fuel) sb_skip_while_non_breakz.
+Proof. exact sb_skip_while_non_breakz_refines. Qed.
+Print Assumptions C10_bytes_skip_while_non_breakz.
+
+Theorem C10_bytes_skip_while_blank : forall fuel,
+  m_refines (fun s => (length (si_chars (sc_in s)) < fuel)%nat) (in_skip_while_blank str_ops fuel) sb_skip_while_blank.
+Proof. exact sb_skip_while_blank_refines. Qed.
+Print Assumptions C10_bytes_skip_while_blank.
+
+Theorem C10_bytes_fetch_while_is_alpha : forall fuel acc out s b,
+  RB (sc_in s) b -> (length (si_chars (sc_in s)) < fuel)%nat ->
+  exists letters i' b',
+    in_fetch_while_alpha str_ops fuel acc s = Ok ((rev letters ++ acc, N.of_nat (length letters)), set_in i' s)
+    /\ sb_fetch_while_is_alpha out b = Ok ((out ++ bytes_of letters, N.of_nat (length letters)), b')
+    /\ RB i' b'.
+Proof. exact sb_fetch_while_is_alpha_refines. Qed.
+Print Assumptions C10_bytes_fetch_while_is_alpha.
+
+(* the single-byte class tests (next_is_blank, next_is_breakz, ...): the first byte decides, as the first character does *)
+Theorem C10_bytes_first_byte_tests : forall on_empty p, ascii_only p -> p 0 = on_empty ->
+  q_refines any (next_is str_ops p) (first_byte_is on_empty p).
+Proof. exact first_byte_refines. Qed.
+Print Assumptions C10_bytes_first_byte_tests.
+
+(* next_2_are / next_3_are for the non-NUL characters the scanner asks for *)
+Theorem C10_bytes_next_2_are : forall a c, a <> 0 -> c <> 0 ->
+  q_refines (looked 2) (next_2_are str_ops a c) (sb_next_2_are a c).
+Proof. exact sb_next_2_are_refines. Qed.
+Print Assumptions C10_bytes_next_2_are.
+
+Theorem C10_bytes_next_3_are : forall a c d, a <> 0 -> c <> 0 -> d <> 0 ->
+  q_refines (looked 3) (next_3_are str_ops a c d) (sb_next_3_are a c d).
+Proof. exact sb_next_3_are_refines. Qed.
+Print Assumptions C10_bytes_next_3_are.
+
+(* EVERYTHING AT ONCE: every method of `impl Input for StrInput` (the primitives, raw_read_ch, peek, peek_nth, look_ch,
+   next_char_is, nth_char_is, next_2_are, next_3_are, the three document tests, next_can_be_plain_scalar, the nine
+   class tests, skip_ws_to_eol, skip_while_non_breakz, skip_while_blank, fetch_while_is_alpha). *)
+Theorem C10_str_bytes_refines_chars :
+  (forall s b, RB s b ->
+     (forall n, exists s' b', lookahead str_ops n s = Ok s' /\ lookahead bytes_ops n b = Ok b' /\ RB s' b')
+     /\ look_rel (buflen str_ops s) (buflen bytes_ops b)
+     /\ ((1 <= buflen bytes_ops b)%nat -> buflen bytes_ops b = buflen str_ops s)
+     /\ bufmaxlen bytes_ops = bufmaxlen str_ops
+     /\ (forall n, peek_nth bytes_ops n b = peek_nth str_ops n s)
+     /\ RB (skip1 str_ops s) (skip1 bytes_ops b)
+     /\ (forall n, exists s' b', skip_n str_ops n s = Ok s' /\ skip_n bytes_ops n b = Ok b' /\ RB s' b')
+     /\ (exists o s' b', raw_read_non_breakz str_ops s = Ok (o, s') /\ raw_read_non_breakz bytes_ops b = Ok (o, b') /\ RB s' b')
+     /\ (exists b', sb_raw_read_ch b = Ok (nth 0 (si_chars s) 0, b') /\ RB (skip1 str_ops s) b'))
+  /\ q_refines any (peek str_ops) sb_peek
+  /\ (forall n, q_refines any (peekn str_ops n) (sb_peek_nth n))
+  /\ m_refines any (look_ch str_ops) sb_look_ch
+  /\ (forall c, q_refines any (next_char_is str_ops c) (sb_next_char_is c))
+  /\ (forall n c, q_refines any (nth_char_is str_ops n c) (sb_nth_char_is n c))
+  /\ (forall a c, a <> 0 -> c <> 0 -> q_refines (looked 2) (next_2_are str_ops a c) (sb_next_2_are a c))
+  /\ (forall a c d, a <> 0 -> c <> 0 -> d <> 0 -> q_refines (looked 3) (next_3_are str_ops a c d) (sb_next_3_are a c d))
+  /\ q_refines (looked 4) (next_is_document_indicator str_ops) sb_next_is_document_indicator
+  /\ q_refines (looked 4) (next_is_document_start str_ops) sb_next_is_document_start
+  /\ q_refines (looked 4) (next_is_document_end str_ops) sb_next_is_document_end
+  /\ (forall fl, q_refines nonempty_in (next_can_be_plain_scalar str_ops fl) (sb_next_can_be_plain_scalar fl))
+  /\ q_refines any (next_is str_ops (fun c => is_blank c || is_break c)) sb_next_is_blank_or_break
+  /\ q_refines any (next_is str_ops is_blank_or_breakz) sb_next_is_blank_or_breakz
+  /\ q_refines any (next_is str_ops is_blank) sb_next_is_blank
+  /\ q_refines any (next_is str_ops is_break) sb_next_is_break
+  /\ q_refines any (next_is str_ops is_breakz) sb_next_is_breakz
+  /\ q_refines any (next_is str_ops is_z) sb_next_is_z
+  /\ q_refines any (next_is str_ops is_flow) sb_next_is_flow
+  /\ q_refines any (next_is str_ops is_digit) sb_next_is_digit
+  /\ q_refines any (next_is str_ops is_alpha) sb_next_is_alpha
+  /\ (forall fuel st, m_refines (fun s => (length (si_chars (sc_in s)) < fuel)%nat)
+                        (in_skip_ws_to_eol str_ops fuel st false false 0) (sb_skip_ws_to_eol st))
+  /\ (forall fuel, m_refines (fun s => (length (si_chars (sc_in s)) < fuel)%nat)
+                        (in_skip_while_non_breakz str_ops fuel) sb_skip_while_non_breakz)
+  /\ (forall fuel, m_refines (fun s => (length (si_chars (sc_in s)) < fuel)%nat)
+                        (in_skip_while_blank str_ops fuel) sb_skip_while_blank)
+  /\ (forall fuel acc out s b, RB (sc_in s) b -> (length (si_chars (sc_in s)) < fuel)%nat ->
+        exists letters i' b',
+          in_fetch_while_alpha str_ops fuel acc s = Ok ((rev letters ++ acc, N.of_nat (length letters)), set_in i' s)
+          /\ sb_fetch_while_is_alpha out b = Ok ((out ++ bytes_of letters, N.of_nat (length letters)), b')
+          /\ RB i' b').
+Proof. exact str_bytes_refines_chars. Qed.
+Print Assumptions C10_str_bytes_refines_chars.
+
+(* the relation is satisfiable for every text, its byte side consists of bytes, and it determines the characters *)
+Theorem C10_bytes_relation_total : forall cs, scalars cs ->
+  RB {| si_chars := cs; si_look := 0 |} {| sb_bytes := bytes_of cs; sb_look := 0 |}
+  /\ Forall (fun b => b < 256) (bytes_of cs)
+  /\ (forall cs', scalars cs' -> bytes_of cs' = bytes_of cs -> cs' = cs).
+Proof. exact bytes_relation_total. Qed.
+Print Assumptions C10_bytes_relation_total.
+
+(* WHERE THE OVERRIDES REALLY DIFFER from the provided methods (all outside what the scanner does):
+   1. on the empty buffer next_can_be_plain_scalar indexes byte 0 and panics (the provided method answers true); every
+      call of the scanner is guarded by !next_is_blank_or_breakz(), which is true on the empty buffer;
+   2. next_2_are(x, '\0') on the last character x: true for the provided method (peek_nth pads with NUL), false for
+      the override (`chars.next().is_some_and(..)`); the scanner asks for '\r','\n' / '-' / '.' only;
+   3. the four consuming overrides do not call lookahead(1): afterwards buflen() can be 0 where the provided method
+      leaves 1 (look_rel); every later lookahead(n >= 1) closes the gap. *)
+Theorem C10_bytes_plain_scalar_panics_on_empty : forall fl l,
+  sb_next_can_be_plain_scalar fl {| sb_bytes := []; sb_look := l |} = Panic 300.
+Proof. exact sb_next_can_be_plain_scalar_empty. Qed.
+Print Assumptions C10_bytes_plain_scalar_panics_on_empty.
+
+Theorem C10_bytes_next_2_are_nul_differs :
+  exists s b, RB (sc_in s) b /\ looked 2 s /\ next_2_are str_ops 120 0 s = Ok (true, s) /\ sb_next_2_are 120 0 b = Ok false.
+Proof. exact next_2_are_nul_differs. Qed.
+Print Assumptions C10_bytes_next_2_are_nul_differs.
+
+Theorem C10_bytes_consuming_overrides_skip_lookahead :
+  let s := init_sc {| si_chars := []; si_look := 0 |} in
+  let b := {| sb_bytes := []; sb_look := 0 |} in
+  RB (sc_in s) b
+  /\ in_skip_while_blank str_ops 1 s = Ok (0, set_in {| si_chars := []; si_look := 1 |} s)
+  /\ sb_skip_while_blank b = Ok (0, {| sb_bytes := []; sb_look := 0 |}).
+Proof. exact consuming_overrides_skip_lookahead. Qed.
+Print Assumptions C10_bytes_consuming_overrides_skip_lookahead.
+
+(* COMPOSITION inside the scanner monad (Proofs/StrBytesSim.v).  RS s t: the scanner states are the same except that the
+   input of t is an RB-related byte-level input.  simp P m n: from RS-related states satisfying P, whatever the
+   character-level computation m returns properly (a value, or an error site at a marker) the byte-level computation
+   n returns too, and the states are RS-related again.  The per-method theorems lift to simp (lift_q / lift_m put an
+   override into the scanner monad), simp is closed under bind, and whole scanner loops rebuilt over the overrides
+   simulate the loops of the model. *)
+Theorem C10_bytes_sim_bind : forall {A B} P (Q : A -> sc strin -> Prop) (m : @M strin A) n (f : A -> @M strin B) g,
+  simp P m n -> (forall a, simp (Q a) (f a) (g a)) -> (forall s a s', P s -> m s = Ok (a, s') -> Q a s') ->
+  simp P (bind m f) (bind n g).
+Proof. exact @simp_bind. Qed.
+Print Assumptions C10_bytes_sim_bind.
+
+Theorem C10_bytes_sim_of_query : forall {A} P (g : @M strin A) f, q_refines P g f -> simp P g (lift_q f).
+Proof. exact @simp_of_q. Qed.
+Print Assumptions C10_bytes_sim_of_query.
+
+Theorem C10_bytes_sim_of_consumer : forall {A} P (g : @M strin A) f, m_refines P g f -> simp P g (lift_m f).
+Proof. exact @simp_of_m. Qed.
+Print Assumptions C10_bytes_sim_of_consumer.
+
+(* Scanner::skip_ws_to_eol (scanner.rs 906: the override, then mark += count, then the error at the mark) *)
+Theorem C10_bytes_scanner_skip_ws_to_eol : forall fuel st,
+  simp (fueled fuel) (skip_ws_to_eol str_ops fuel st) (b_skip_ws_to_eol st).
+Proof. exact simp_skip_ws_to_eol. Qed.
+Print Assumptions C10_bytes_scanner_skip_ws_to_eol.
+
+(* skip_linebreak over the overrides next_2_are('\r','\n'), peek and skip *)
+Theorem C10_bytes_scanner_skip_linebreak : simp (looked 2) (skip_linebreak str_ops) b_skip_linebreak.
+Proof. exact simp_skip_linebreak. Qed.
+Print Assumptions C10_bytes_scanner_skip_linebreak.
+
+(* a whole loop of the scanner, skip_yaml_whitespace (scanner.rs 873-904), rebuilt over look_ch, skip, lookahead,
+   next_2_are, peek and skip_while_non_breakz of the byte-level StrInput: it returns what the model's loop returns *)
+Theorem C10_bytes_scanner_skip_yaml_whitespace : forall fuel,
+  simp (fueled fuel) (skip_yaml_whitespace str_ops fuel) (b_skip_yaml_whitespace fuel).
+Proof. exact simp_skip_yaml_whitespace. Qed.
+Print Assumptions C10_bytes_scanner_skip_yaml_whitespace.
+
+(* non-vacuity: the byte-level methods on "a: \u{e9}\t# \u{20ac}\u{1f600}x\n-" (1-, 2-, 3-, 4-byte characters) *)
+Example C10_bytes_example :
+  let cs := [97; 58; 32; 233; 9; 35; 32; 8364; 128512; 120; 10; 45] in
+  let b k := {| sb_bytes := bytes_of (skipn k cs); sb_look := 0 |} in
+  length (bytes_of cs) = 18%nat
+  /\ sb_next_can_be_plain_scalar false (b 1%nat) = Ok false
+  /\ sb_next_can_be_plain_scalar false (b 3%nat) = Ok true
+  /\ sb_skip_ws_to_eol SkipYes (b 4%nat) = Ok ((6, Some (true, false)), b 10%nat)
+  /\ sb_skip_ws_to_eol SkipNo (b 5%nat) = Ok ((0, None), b 5%nat)
+  /\ sb_skip_while_non_breakz (b 3%nat) = Ok (7, b 10%nat)
+  /\ sb_fetch_while_is_alpha [33] (b 0%nat) = Ok (([33; 97], 1), b 1%nat)
+  /\ sb_peek_nth 5 (b 3%nat) = Ok 128512.
+Proof. vm_compute. repeat split; reflexivity. Qed.
+
+(* non-vacuity of the simulation: " #\u{e9}\n x" — the loop over the byte-level overrides and the model's loop end on
+   the same character with the same mark (index 5: characters, not bytes) *)
+Example C10_bytes_sim_example :
+  let cs := [32; 35; 233; 10; 32; 120] in
+  match skip_yaml_whitespace str_ops 10 (init_sc {| si_chars := cs; si_look := 0 |}),
+        b_skip_yaml_whitespace 10 (init_sc {| sb_bytes := bytes_of cs; sb_look := 0 |}) with
+  | Ok (_, s), Ok (_, t) =>
+      si_chars (sc_in s) = [120] /\ sb_bytes (sc_in t) = [120] /\ sc_mark s = sc_mark t /\ m_index (sc_mark t) = 5
+      /\ m_line (sc_mark t) = 2 /\ sc_ska s = sc_ska t
+  | _, _ => False
+  end.
+Proof. vm_compute. repeat split; reflexivity. Qed.
